@@ -66,13 +66,24 @@ def apply_simple_adc(
     1. Rounds the normalized values to the nearest integer using truncation.
     1. Converts the resulting array to the specified data type (dtype).
     """
-    output = (
-        (np.clip(signal, a_min=voltage_min, a_max=voltage_max) - voltage_min)
-        * (2**bit_resolution - 1)
-        / (voltage_max - voltage_min)
-    )
+    max_code: int = 2**bit_resolution - 1
 
-    return np.trunc(output).astype(dtype)
+    # Normalize first (full range gives exactly 1.0), then scale to the codes
+    normalized = (
+        np.clip(signal, a_min=voltage_min, a_max=voltage_max) - voltage_min
+    ) / (voltage_max - voltage_min)
+
+    # Largest floating point value which does not exceed 'max_code'
+    max_float = float(max_code)
+    if max_float > max_code:
+        max_float = float(np.nextafter(max_float, 0.0))
+
+    output = np.trunc(np.minimum(normalized * max_code, max_float)).astype(dtype)
+
+    # The upper end of the range is always converted to the full scale
+    output[normalized >= 1.0] = max_code
+
+    return output
 
 
 def simple_adc(
